@@ -12,6 +12,7 @@ import itertools
 import json
 import multiprocessing
 import os
+import signal
 import sys
 import time
 import traceback
@@ -303,6 +304,63 @@ class BFSResult(object):
         self.bisim_examples = []
 
 
+class StepTimeout(BaseException):
+    """raised by time_limit; a BaseException so that a step's own `except Exception` cannot swallow it"""
+
+
+class time_limit(object):
+    """with time_limit(seconds, exc): ...   raises exc() in the main thread when the body runs too long.
+    Nests: leaving an inner limit re-arms what is left of the outer one."""
+
+    def __init__(self, seconds, exc=StepTimeout):
+        self.seconds = seconds
+        self.exc = exc
+
+    def _handler(self, signum, frame):
+        raise self.exc()
+
+    def __enter__(self):
+        self.old_handler = signal.signal(signal.SIGALRM, self._handler)
+        self.t0 = time.time()
+        self.old_delay = signal.setitimer(signal.ITIMER_REAL, self.seconds)[0]
+        return self
+
+    def __exit__(self, *a):
+        signal.setitimer(signal.ITIMER_REAL, 0)
+        signal.signal(signal.SIGALRM, self.old_handler)
+        if self.old_delay:
+            signal.setitimer(signal.ITIMER_REAL, max(0.001, self.old_delay - (time.time() - self.t0)))
+        return False
+
+
+STEP_LIMIT = float(os.environ.get("VERIF_STEP_LIMIT", "120"))
+
+
+def guarded_step(step, ctx, w):
+    """one BFS step under a watchdog: a step that does not come back is a violation (the parse or pipeline it
+    drives loops), reported with the word so that it can be replayed; all such states are merged (no successors
+    of a hung execution are worth exploring more than once)."""
+    try:
+        with time_limit(STEP_LIMIT):
+            return step(w) if ctx is None else step(ctx, w)
+    except StepTimeout:
+        v = Violation("engine.step", {"module": step.__module__, "step": step.__name__, "ctx": ctx}, list(w),
+                      "the step returns", "no result after %d s" % STEP_LIMIT,
+                      "exploring this word did not terminate within %d s (the parse or pipeline it drives loops)" % STEP_LIMIT,
+                      "nontermination")
+        return (("nontermination",), "nontermination", v)
+
+
+def replay_step(config, case):
+    import importlib
+    step = getattr(importlib.import_module(config["module"]), config["step"])
+    ctx = config.get("ctx")
+    if isinstance(ctx, list):
+        ctx = tuple(ctx)
+    r = guarded_step(step, ctx, tuple(case))
+    return r[2] if r[0] == ("nontermination",) else None
+
+
 def _bfs_expand(task):
     """Worker: run every one-letter extension of `word`.
     returns list of (key, obs_digest, violation_or_None)"""
@@ -311,7 +369,7 @@ def _bfs_expand(task):
     for a in range(nletters):
         w = word + (a,)
         try:
-            r = step(w) if ctx is None else step(ctx, w)
+            r = guarded_step(step, ctx, w)
         except Exception:  # harness bug: surface loudly, never as a VIOLATION
             raise RuntimeError("harness error on word %r ctx %r:\n%s" % (w, ctx, traceback.format_exc()))
         out.append(r)
@@ -331,7 +389,7 @@ def product_bfs(step, nletters, depth, init_words=((),), max_transitions=None, b
     seen = {}
     frontier = []
     for w in init_words:
-        k, o, v = step(tuple(w)) if ctx is None else step(ctx, tuple(w))
+        k, o, v = guarded_step(step, ctx, tuple(w))
         res.transitions += 1
         res.obs.add(o)
         if v is not None:
